@@ -129,6 +129,7 @@ func model(method string, exists bool, im, inm string) verdict {
 // --- fixture -----------------------------------------------------------------
 
 type fixture struct {
+	noTag    bool // the resource (a collection) announces no entity tag
 	root     string
 	h        *tap
 	curHdr   string // header value of the current tag
@@ -247,7 +248,9 @@ func buildFixture(dir, state string) (*fixture, error) {
 		if err != nil {
 			return nil, err
 		}
-		fx.staleHdr = quoteTag(fi.ETag)
+		if fi.ETag != "" {
+			fx.staleHdr = quoteTag(fi.ETag)
+		}
 		if err := os.Mkdir(filepath.Join(t, "sub"), 0755); err != nil {
 			return nil, err
 		}
@@ -267,9 +270,14 @@ func buildFixture(dir, state string) (*fixture, error) {
 			return nil, err
 		}
 		if fi.ETag == "" {
-			return nil, fmt.Errorf("collection has no tag")
+			// A collection need not announce a tag. There is then no
+			// "current" or "stale" value to send; the other condition
+			// classes use a placeholder tag where they need one.
+			fx.noTag = true
+			fx.staleHdr = ""
+		} else {
+			fx.curHdr = quoteTag(fi.ETag)
 		}
-		fx.curHdr = quoteTag(fi.ETag)
 	}
 	if err := os.Chtimes(root, tRoot, tRoot); err != nil {
 		return nil, err
@@ -282,6 +290,10 @@ func buildFixture(dir, state string) (*fixture, error) {
 
 // value returns the header value of a condition class ("" = header not sent).
 func (fx *fixture) value(cond string) string {
+	cur := fx.curHdr
+	if fx.noTag {
+		cur = `"c04-placeholder"`
+	}
 	switch cond {
 	case "*":
 		return "*"
@@ -297,11 +309,11 @@ func (fx *fixture) value(cond string) string {
 		}
 		return "c04bareword"
 	case "weak":
-		return "W/" + fx.curHdr
+		return "W/" + cur
 	case "list":
-		return fx.curHdr + ", " + otherHdr
+		return cur + ", " + otherHdr
 	case "unterminated":
-		return fx.curHdr[:len(fx.curHdr)-1]
+		return cur[:len(cur)-1]
 	}
 	return ""
 }
@@ -376,14 +388,15 @@ func freshDir(c *fw.Ctx, tag string) string {
 }
 
 type outcome struct {
-	status int
-	effect string
-	diff   []string
-	shape  string
-	panic  string
-	err    string
-	seen   *seenHdr
-	fx     *fixture
+	skipped string // non-empty: the cell does not exist for this fixture
+	status  int
+	effect  string
+	diff    []string
+	shape   string
+	panic   string
+	err     string
+	seen    *seenHdr
+	fx      *fixture
 }
 
 // runCell builds a fresh tree and performs one request of the product.
@@ -394,7 +407,11 @@ func runCell(c *fw.Ctx, cs *prodCase) (*outcome, error) {
 	if err != nil {
 		return nil, err
 	}
-	if fx.curHdr == fx.staleHdr || fx.curHdr == otherHdr || fx.staleHdr == otherHdr {
+	if fx.noTag {
+		if cs.IM == "current" || cs.IM == "stale" || cs.INM == "current" || cs.INM == "stale" {
+			return &outcome{skipped: "the resource announces no entity tag: no current or stale value to send"}, nil
+		}
+	} else if fx.curHdr == fx.staleHdr || fx.curHdr == otherHdr || fx.staleHdr == otherHdr {
 		return nil, fmt.Errorf("tags not pairwise distinct: current %s stale %s", fx.curHdr, fx.staleHdr)
 	}
 	var hs []hdr
@@ -450,6 +467,10 @@ func execProduct(c *fw.Ctx, cs prodCase) {
 	o, err := runCell(c, &cs)
 	if err != nil {
 		c.Inconclusive(fmt.Sprintf("C04 product %s/%s/%s/%s: fixture: %v", cs.Method, cs.State, cs.IM, cs.INM, err))
+		return
+	}
+	if o.skipped != "" {
+		c.Observe("product cells without a value to send", cs.State+": "+o.skipped, 1)
 		return
 	}
 	if o.err != "" {
